@@ -219,11 +219,14 @@ func (pb *proposalBlock) organizeTransactions(bo *BlockOperations) error {
 // commitTransaction attempts to appply a single transaction. If the transaction fails, it's modifications are reverted.
 func (pb *proposalBlock) commitTransaction(bo *BlockOperations, tx *types.Transaction) error {
 	snap := pb.state.Snapshot()
+	gasBefore := pb.gasPool.Gas()
 	kvmConfig := kvm.Config{}
 
 	receipt, _, err := ApplyTransaction(bo.blockchain.chainConfig, pb.logger, bo.blockchain, pb.gasPool, pb.state, pb.header, tx, pb.usedGas, kvmConfig)
 	if err != nil {
 		pb.state.RevertToSnapshot(snap)
+		// a rejected tx must not consume block gas: give back what buyGas took
+		*pb.gasPool = types.GasPool(gasBefore)
 		return err
 	}
 	pb.txs = append(pb.txs, tx)
